@@ -682,6 +682,11 @@ func (s *zstate) apply(ctx context.Context, step int, o op) {
 			desc += " " + pstr(pm, w)
 		}
 		for _, pm := range a.Permissions {
+			if pm.Resource.Type == influxdb.InstanceResourceType {
+				// the service refuses to put the instance type into tokens at all
+				notHeld = &mreq{write: pm.Action == influxdb.WriteAction, typ: influxdb.InstanceResourceType}
+				break
+			}
 			if q, held := s.held(c, pm, w); !held {
 				q := q
 				notHeld = &q
